@@ -32,7 +32,7 @@ ASSUMPTIONS = ['repeated calls are compared to 1e-12 relative rather than bit-fo
                'propagate_fft(scratch=), Spectrum.crop/trim/pad/append/resample/to']
 PLAN = {'quick': {'gen': 8}, 'thorough': {'gen': 16, 'tests': 1}}
 REQUIRED_BUCKETS = ['op:Plane()', 'op:Pupil(mask3d)', 'op:multiply', 'op:propagate_dft', 'op:propagate_fft', 'op:fit_tilt',
-                    'op:rescale', 'op:adc', 'op:collect_charge', 'op:collect_charge_bayer', 'op:tilt-multiply', 'op:pixel', 'op:jitter', 'op:smear',
+                    'op:rescale', 'op:adc', 'op:collect_charge', 'op:collect_charge_bayer', 'op:tilt-multiply', 'op:Field(ndarray offset)', 'op:Plane.properties', 'op:pixel', 'op:jitter', 'op:smear',
                     'op:dft2', 'op:idft2', 'op:zernike_fit', 'op:pad', 'op:rebin', 'op:power_spectrum', 'op:Spectrum.multiply',
                     'op:Spectrum.sample', 'op:Spectrum.bin', 'op:shot_noise', 'op:read_noise', 'program', 'dft-keys>32',
                     'replayed']
@@ -222,15 +222,53 @@ def catalogue(lentil, rng):
     @op('propagate_fft')
     def _():
         shape, a = pupil_args()
-        G = int(rng.integers(max(shape) + 2, 40))
-        du = 6e-7 * 5.0 * 2 / (1e-3 * G)
-        a['scratch'] = (rng.normal(size=(G + 3, G + 5)) + 0j)
+        G0 = int(rng.integers(max(shape) + 2, 40))
+        G1 = G0 if rng.random() < 0.4 else int(rng.integers(max(shape) + 2, 48))       # FFT grids of any aspect ratio
+        du = (6e-7 * 5.0 * 2 / (1e-3 * G0), 6e-7 * 5.0 * 2 / (1e-3 * G1))
+        a['scratch'] = (rng.normal(size=(G0 + 3, G1 + 5)) + 0j)
+        a['scratch2'] = (rng.normal(size=(G0 + 1, G1 + 2)) * 5 + 1j)
         def call(a):
             w = lentil.Wavefront(6e-7) * mk_pupil(a)
             fw = probe.fingerprint(w)
             o1 = lentil.propagate_fft(w, du, oversample=2)
             o2 = lentil.propagate_fft(w, du, oversample=2, scratch=np.array(a['scratch']))   # scratch is whitelisted in-place
-            return (o1, o2), [('wavefront', fw, probe.fingerprint(w))]
+            o3 = lentil.propagate_fft(w, du, oversample=2, scratch=np.array(a['scratch2']))
+            # the content of the scratch buffer is not an argument of the computation: all three results agree
+            same = same_digest(result_digest(o1), result_digest(o2)) and same_digest(result_digest(o1), result_digest(o3))
+            return (o1, o2), [('wavefront', fw, probe.fingerprint(w)), ('repeat', 'same', 'same' if same else 'changed')]
+        return a, call
+
+    @op('Field(ndarray offset)')
+    def _():
+        k = int(rng.integers(1, 4))
+        a = {'data': [rng.normal(size=(int(rng.integers(2, 6)), int(rng.integers(2, 6)))) + 0j for _ in range(k)],
+             'offset': [np.array([int(rng.integers(-3, 4)), int(rng.integers(-3, 4))]) for _ in range(k)],
+             'out': np.zeros((9, 11))}
+        def call(a):
+            F = lentil.field.Field
+            w = lentil.Wavefront.empty(wavelength=6e-7, pixelscale=5e-6, shape=(9, 11), ptype=lentil.image)
+            w.data = [F(d, pixelscale=5e-6, offset=o) for d, o in zip(a['data'], a['offset'])]     # caller's offset arrays
+            fw = probe.fingerprint(w)
+            r1 = (w.field.copy(), w.intensity.copy(), w.insert(np.array(a['out']), 2.0))
+            r2 = (w.field.copy(), w.intensity.copy(), w.insert(np.array(a['out']), 2.0))           # rendering twice
+            same = same_digest(result_digest(r1), result_digest(r2))
+            return r1, [('wavefront', fw, probe.fingerprint(w)), ('repeat', 'same', 'same' if same else 'changed')]
+        return a, call
+
+    @op('Plane.properties')
+    def _():
+        shape, a = pupil_args()
+        s_ = float(rng.choice([1.5, 2.0, 3.3]))
+        def call(a):
+            p = lentil.Pupil(amplitude=a['amp'], opd=a['opd'], mask=np.sum(a['mask'], axis=0), pixelscale=1e-3, focal_length=5.0)
+            q = lentil.Pupil(amplitude=a['amp'], opd=a['opd'], mask=np.sum(a['mask'], axis=0), pixelscale=1e-3, focal_length=5.0)
+            fp = probe.fingerprint(p)
+            reads = (p.diameter, p.shape, p.size, p.global_mask.sum(), p.ptt_vector.shape, p.ptype, p.pixelscale)   # read-only views
+            fp2 = probe.fingerprint(p)
+            # the same derived plane whether or not a property of the parent had been read before
+            d_read, d_fresh = p.rescale(s_).diameter, q.rescale(s_).diameter
+            same = d_read == d_fresh and p.fit_tilt().diameter == q.fit_tilt().diameter
+            return np.array([reads[0], d_read]), [('plane', fp, fp2), ('repeat', 'same', 'same' if same else 'changed')]
         return a, call
 
     @op('fit_tilt')
@@ -246,6 +284,7 @@ def catalogue(lentil, rng):
     @op('rescale')
     def _():
         shape, a = pupil_args()
+        a['mask'] = np.sum(a['mask'], axis=0)        # monolithic: tiny random segments vanishing under resampling is C17's domain
         s = float(rng.choice([1.5, 2.0, 1.0]))      # down-sampling tiny random segments away is C17's domain
         def call(a):
             p = mk_pupil(a)
